@@ -606,3 +606,12 @@ func vDeclarationsNoPanic() (int, []string) {
 
 //@ bounded vDeclarationsNoPanic every property and shorthand name x every value of 1 to 3 tokens over 18 token shapes, and every shorthand x every value of 4 tokens over 10 shapes, through PreprocessDeclarations; 19 @font-face / @counter-style descriptors x values of 1 to 3 tokens over 29 shapes: no panic
 //@   props C07 C01
+
+// C03 (importance ranks a declaration in the cascade): every longhand a declaration expands to carries the
+// importance of THAT declaration - `!important` on one declaration of a block says nothing about the next one -
+// together with the name and value the expansion gave it
+//@ func PreprocessDeclarationsPrelude
+//@   props C03 C08
+//@   modifies anything
+//@   unclaimed call-*-pre* "token lists of parsed declarations contain no nil token (a data invariant of the parser's output)"
+//@   call append#9 assert[own-importance] arg1[0].Important == declaration.Important && arg1[0].Name == np.name && arg1[0].Value == np.property && arg1[0].Shortand == np.shortand
